@@ -1,6 +1,8 @@
 import Driver.Util
 import ZvbiModel.Xds.Model
 import ZvbiModel.Xds.Service
+import ZvbiModel.Xds.Dec
+import ZvbiModel.Xds.SepFrame
 namespace Zvbi.Driver.Xds
 open Zvbi.Driver Zvbi.Xds Zvbi.Gen.Xds
 
@@ -8,6 +10,7 @@ structure St where
   d : Demux.State := Demux.init
   s : Sep.State := Sep.init
   v : Svc.State := Svc.init
+  dv : Dec.Info := Dec.init
 
 def optIdx : Option Nat → String
   | some i => toString i
@@ -36,9 +39,32 @@ def showEv : Svc.Ev → String
   | .network name call nuid td => s!" ev:net name={toHex name} call={toHex call} nuid={nuid} td={td}"
   | .networkId => " ev:netid"
 
+def digits (l : List Nat) : String := String.join (l.map toString)
+
+/-- all fields of one `vbi_program_info` (ops `q`): same token order as `q_pi` in the harness -/
+def showDpi (p : Dec.PI) : String :=
+  let ty := if p.typeEia then toHex (Dec.cstr p.typeId) else "none"
+  let ds := (List.range 8).foldl (fun acc i => acc ++ s!" d{i}={toHex (Dec.cstr (p.description.getD i []))}") ""
+  s!" pin={p.month}.{p.day}.{p.hour}.{p.min} td={if p.tapeDelayed then 1 else 0} len={p.lengthHour}:{p.lengthMin} el={p.elapsedHour}:{p.elapsedMin}:{p.elapsedSec} title={toHex (Dec.cstr p.title)} type={ty} rating={p.ratingAuth}/{p.ratingId}/{p.ratingDlsv} audio={p.audioMode.getD 0 9}.{p.audioLang.getD 0 0}.{p.audioMode.getD 1 9}.{p.audioLang.getD 1 0} capsvc={p.capServices} caplang={digits p.capLang} cgms={p.cgms} asp={p.aspect.first}.{p.aspect.last}.{p.aspect.ratio}{ds}"
+
+def showDev : Dec.Ev → String
+  | .progInfo f p => s!" E:pi f={f}" ++ showDpi p
+  | .aspect a => s!" E:asp {a.first}.{a.last}.{a.ratio}"
+  | .network name call nuid td => s!" E:net name={toHex name} call={toHex call} nuid={nuid} td={td}"
+  | .networkId => " E:netid"
+
+/-- set bit positions of `info_cycle[]`, ascending -/
+def showCyc (c : List Nat) : String :=
+  let l := (List.range 32).filter (fun t => c.contains t)
+  if l.isEmpty then "-" else ",".intercalate (l.map toString)
+
+def showInfo (v : Dec.Info) : String :=
+  " S0" ++ showDpi v.pi0 ++ " S1" ++ showDpi v.pi1 ++
+  s!" SN name={toHex (Dec.cstr v.net.name)} call={toHex (Dec.cstr v.net.call)} cyc={v.net.cycle} nuid={v.net.nuid} td={v.net.tapeDelay} SC cyc0={showCyc v.cyc0} cyc1={showCyc v.cyc1} asrc={v.aspSrc} lang={digits v.chLang}"
+
 /-- `s xxxx` / `p xxxx`: the same call into the decoder; `p` also prints the service decoder's events
     (` ev?` once a packet type the service model does not cover was delivered) -/
-def sepOp (events : Bool) (st : St) (h : String) : St × String :=
+def sepOp (events : Bool) (full : Bool) (st : St) (h : String) : St × String :=
   match pair h with
   | none => (st, "rej parse")
   | some b =>
@@ -50,11 +76,46 @@ def sepOp (events : Bool) (st : St) (h : String) : St × String :=
       | some p => s!" dec {p.cls} {p.sub} {p.data.length} {toHex p.data}"
       | none => ""
     let ev := if !events then "" else if r.1.2.lost then " ev?" else String.join (r.2.2.map showEv)
-    ({ st with s := s', v := r.1.2 },
-     s!"ok cur={optIdx s'.curr} xds={if s'.xds then 1 else 0} tc={tc} tk={tk}{errTag o.err}{p}{ev}")
+    -- the complete service-decoder model `Dec` runs on every delivered packet; `q` prints its events and state
+    let dr := match o.dec with
+      | some pk => Dec.step st.dv pk (Dec.nxOf st.s)
+      | none => (st.dv, {})
+    let dtxt := if !full then "" else match o.dec with
+      | some _ => errTag dr.2.err ++ String.join (dr.2.evs.map showDev) ++ showInfo dr.1
+      | none => ""
+    ({ st with s := s', v := r.1.2, dv := dr.1 },
+     s!"ok cur={optIdx s'.curr} xds={if s'.xds then 1 else 0} tc={tc} tk={tk}{errTag o.err}{p}{ev}{dtxt}")
+
+/-- `frame <n> [<id> <line> <2B>]*` -/
+def parseFrame : Nat → List String → Option (List Frame.Sliced)
+  | 0, [] => some []
+  | n + 1, i :: l :: h :: rest =>
+    match parseNat i, parseNat l, pair h, parseFrame n rest with
+    | some i, some l, some b, some r => some (⟨i, l, b⟩ :: r)
+    | _, _, _, _ => none
+  | _, _ => none
+
+def frameOp (st : St) (ws : List String) : St × String :=
+  match ws with
+  | n :: rest =>
+    match parseNat n with
+    | none => (st, "rej parse")
+    | some n =>
+      match parseFrame n rest with
+      | none => (st, "rej parse")
+      | some fr =>
+        let r := Frame.feedFrame demuxRejectKeepsCurrent st.d fr
+        let (tc, tk) := digest r.1.slots
+        let errs := String.join (r.2.2.map fun o => errTag o.err)
+        let pk := String.join (r.2.2.map fun o => match o.pkt with
+          | some p => s!" pkt {p.cls} {p.sub} {p.data.length} {toHex p.data} z=1"
+          | none => "")
+        ({ st with d := r.1 }, s!"ok r={if r.2.1 then 1 else 0} cur={optIdx r.1.curr} tc={tc} tk={tk}{errs}{pk}")
+  | [] => (st, "rej parse")
 
 def step (st : St) (ws : List String) : St × String :=
   match ws with
+  | "frame" :: rest => frameOp st rest
   | ["extents"] =>
     (st, s!"ok dbuf={demuxBufExtent} dcls={demuxClasses} dsub={demuxSubclasses} dpkt={demuxPktExtent} sbuf={sepBufExtent} scls={sepClasses} ssub={sepSubclasses} misc={demuxMaxClass}")
   | ["d", h] =>
@@ -67,8 +128,13 @@ def step (st : St) (ws : List String) : St × String :=
         | some p => s!" pkt {p.cls} {p.sub} {p.data.length} {toHex p.data} z=1"
         | none => ""
       ({ st with d := d' }, s!"ok r={if o.r then 1 else 0} cur={optIdx d'.curr} tc={tc} tk={tk}{errTag o.err}{p}")
-  | ["p", h] => sepOp true st h
-  | ["s", h] => sepOp false st h
+  | ["extents2"] =>
+    (st, s!"ok title={Dec.titleExt} desc={Dec.descExt} type={Dec.typeExt} name={Dec.nameExt} call={Dec.callExt} f1={Frame.idF1} f2={Frame.idF2} c525={Frame.id525}")
+  | ["p", h] => sepOp true false st h
+  | ["s", h] => sepOp false false st h
+  | ["q", h] => sepOp false true st h
+  | "q" :: _ => (st, "rej parse")
+  | "extents2" :: _ => (st, "rej parse")
   | "d" :: _ => (st, "rej parse")
   | "s" :: _ => (st, "rej parse")
   | "p" :: _ => (st, "rej parse")
